@@ -141,7 +141,10 @@ def catalogue():
         add("Cylinder.chain(length)", length, exp, lambda length=length: cb.Cylinder.chain(cyl(), length))
         add("Cylinder.chain(length, start)", length, exp, lambda length=length: cb.Cylinder.chain(cyl(), length, start_face=True))
         add("Frustum.chain(length)", length, exp, lambda length=length: cb.Frustum.chain(cyl(), length, 0.3))
+        add("Frustum.chain(length, start)", length, exp, lambda length=length: cb.Frustum.chain(cyl(), length, 0.3, start_face=True))
+        add("Frustum.chain(length, start, radius_mid)", length, exp, lambda length=length: cb.Frustum.chain(cyl(), length, 0.3, start_face=True, radius_mid=0.4))
         add("ExtrudedRing.chain(length)", length, exp, lambda length=length: cb.ExtrudedRing.chain(ring(), length))
+        add("ExtrudedRing.chain(length, start)", length, exp, lambda length=length: cb.ExtrudedRing.chain(ring(), length, start_face=True))
     for r, exp in ((0.3, "in"), (0.5, "may"), (0.7, "out"), (0.0, "out"), (-0.2, "out")):
         add("ExtrudedRing.contract(inner_radius)", r, exp, lambda r=r: cb.ExtrudedRing.contract(ring(), r))
     for n, exp in ((8, "in"), (6, "out"), (10, "out")):
